@@ -11,7 +11,7 @@
    well formed, index arrays as long as the edge table" — cell VALUES are arbitrary.
    [pinned] is the pre-fix code (380c75d), kept only for the two historical refutations. *)
 From Coq Require Import List ZArith.
-From TskVerif Require Import Base.Common C02.Fl C02.Model C02.Spec C02.Sound C02.SweepComplete C02.Refuted C02.Top C02.BuildIndex.
+From TskVerif Require Import Base.Common C02.Fl C02.Model C02.Spec C02.Sound C02.SweepComplete C02.Refuted C02.Top C02.BuildIndex C02.Reach C02.ErrClass.
 Open Scope Z_scope.
 
 (* (a) memory safety: whatever the cell values, the gate never indexes out of bounds — every id
@@ -75,6 +75,58 @@ Theorem gate_unindexed_complete : forall t,
   MutBelowParentNodeOK t -> 2 * num_edges t + 1 < TSK_MAX_ID ->
   exists n, tree_sequence_gate t = Ok n.
 Proof. exact gate_accepts_unindexed_full. Qed.
+
+(* (f) where WF comes from: every collection obtainable from the empty one by the table-writing
+   API (add_row / set_columns / append / truncate — which refuse columns of different lengths —,
+   tables.indexes = ..., drop_index, build_index, with has_index()'s row-count test for stale
+   indexes), with ARBITRARY cell values, is well formed.  So on everything a user can build the
+   gate is memory safe, terminates and decides ValidTS — no shape hypothesis left.  FULL. *)
+Theorem reach_WF : forall t, Reach t -> WF t.
+Proof. exact reach_WF_lemma. Qed.
+
+Theorem gate_on_reachable : forall t, Reach t -> 2 * num_edges t + 1 < TSK_MAX_ID ->
+  check t <> OOB /\ check t <> Fuel /\ ((exists n, check t = Ok n) <-> ValidTS t).
+Proof. exact gate_on_reachable_lemma. Qed.
+
+(* (g) tskit.load (tsk_treeseq_load: the gate WITHOUT build_index): a file without an index is
+   never accepted, and if nothing else is wrong the error is TSK_ERR_TABLES_NOT_INDEXED; for files
+   with an index load_gate = check, so check_iff is "load accepts iff ValidTS".  FULL. *)
+Theorem load_unindexed_rejected : forall t n, idx t = None -> load_gate t <> Ok n.
+Proof. exact load_unindexed_rejected_lemma. Qed.
+
+Theorem load_unindexed_error : forall t, WF t -> idx t = None -> SeqlenOK t -> RowsValid t ->
+  load_gate t = Err E_TABLES_NOT_INDEXED.
+Proof. exact load_unindexed_error_lemma. Qed.
+
+(* (h) the error class: the error returned is one of the codes of the FIRST requirement group
+   (in the order of the checks) that the collection violates.  One theorem per group; a
+   single-field departure from a valid collection violates the groups from the damaged one on,
+   so its error class is a code of that group.  FULL (groups, not the individual code). *)
+Theorem error_seqlen : forall t, ~ SeqlenOK t -> check t = Err E_BAD_SEQUENCE_LENGTH.
+Proof. exact err_seqlen. Qed.
+Theorem error_offsets : forall t, WF t -> SeqlenOK t -> ~ OffsetsOK t -> check t = Err E_BAD_OFFSET.
+Proof. exact err_offsets. Qed.
+Theorem error_nodes : forall t, WF t -> SeqlenOK t -> OffsetsOK t -> ~ NodesOK t ->
+  exists c, In c node_codes /\ check t = Err c.
+Proof. exact err_nodes. Qed.
+Theorem error_edges : forall t, WF t -> SeqlenOK t -> OffsetsOK t -> NodesOK t -> ~ EdgesOK t ->
+  exists c, In c edge_codes /\ check t = Err c.
+Proof. exact err_edges. Qed.
+Theorem error_sites : forall t, WF t -> SeqlenOK t -> OffsetsOK t -> NodesOK t -> EdgesOK t -> ~ SitesOK t ->
+  exists c, In c site_codes /\ check t = Err c.
+Proof. exact err_sites. Qed.
+Theorem error_mutations : forall t, WF t -> SeqlenOK t -> OffsetsOK t -> NodesOK t -> EdgesOK t -> SitesOK t ->
+  ~ MutsOK t -> exists c, In c mut_codes /\ check t = Err c.
+Proof. exact err_muts. Qed.
+Theorem error_migrations : forall t, WF t -> SeqlenOK t -> OffsetsOK t -> NodesOK t -> EdgesOK t -> SitesOK t ->
+  MutsOK t -> ~ MigsOK t -> exists c, In c mig_codes /\ check t = Err c.
+Proof. exact err_migs. Qed.
+Theorem error_individuals : forall t, WF t -> SeqlenOK t -> OffsetsOK t -> NodesOK t -> EdgesOK t -> SitesOK t ->
+  MutsOK t -> MigsOK t -> ~ IndsOK t -> exists c, In c ind_codes /\ check t = Err c.
+Proof. exact err_inds. Qed.
+Theorem error_index_trees : forall t, WF t -> SeqlenOK t -> RowsValid t -> ~ TreesOK t ->
+  exists c, In c (index_codes ++ tree_codes) /\ check t = Err c.
+Proof. exact err_trees. Qed.
 
 (* (d) HISTORICAL RECORD, about the PINNED pre-fix code only (not the current model): full
    soundness failed before e4937b5 / c14733b *)
